@@ -1044,10 +1044,25 @@ fn gen_header(rng: &mut Rng, p: &P, prog: &[u8]) -> GenHdr {
         let mut formats: Vec<u64> = Vec::new();
         let mut rows: Vec<Vec<FV>> = (0..count).map(|_| Vec::new()).collect();
         for ct in &cts {
-            let proto = if *ct == 5 && rng.chance(3, 4) { FV::Data16(vec![0; 16]) } else { random_fv(rng, p.fmt64, *ct == 1) };
+            let md5_block = *ct == 5 && rng.chance(1, 3);
+            let proto = if md5_block {
+                // MD5 written as a block: only exactly 16 bytes count
+                FV::Block(*rng.pick(&[0x0au64, 0x03, 0x04, 0x09]), vec![])
+            } else if *ct == 5 && rng.chance(3, 4) {
+                FV::Data16(vec![0; 16])
+            } else {
+                random_fv(rng, p.fmt64, *ct == 1)
+            };
             formats.push(proto.form());
             for r in rows.iter_mut() {
-                let mut v = if matches!(proto, FV::Data16(_)) { FV::Data16(rng.bytes(16)) } else { random_fv(rng, p.fmt64, *ct == 1) };
+                let mut v = if md5_block {
+                    let n = *rng.pick(&[0usize, 15, 16, 16, 17, 32]);
+                    FV::Block(proto.form(), rng.bytes(n))
+                } else if matches!(proto, FV::Data16(_)) {
+                    FV::Data16(rng.bytes(16))
+                } else {
+                    random_fv(rng, p.fmt64, *ct == 1)
+                };
                 let mut guard = 0;
                 while v.form() != proto.form() && guard < 200 {
                     v = random_fv(rng, p.fmt64, *ct == 1);
@@ -1386,6 +1401,13 @@ fn gen_abs(rng: &mut Rng, p: &P, tame: bool) -> Vec<I> {
     if rng.chance(3, 4) {
         addr = if tame { rng.below(mask / 2 + 1) } else { rng.boundary_u64() & mask };
         is.push(I::SetAddress(addr));
+    }
+    if !tame && rng.chance(1, 6) {
+        // drive the line register to the top of u64 so that the next advances wrap
+        is.push(I::AdvanceLine(i64::MAX));
+        is.push(I::AdvanceLine(i64::MAX));
+        is.push(I::AdvanceLine(rng.below(4) as i64));
+        is.push(I::Copy);
     }
     for _ in 0..n {
         let k = rng.below(100);
